@@ -157,6 +157,9 @@ def oracle(ctx, rng, n):
         level = rng.choice(["zero", "low", "nominal", "high", "extreme"])
         scale = dict(zero=0.0, low=1e3, nominal=2.5e4, high=6e4, extreme=2.5e5)[level]
         q = np.array([scale * rng.uniform(0.5, 1.0) for _ in range(npin)])
+        if npin >= 2 and level != "zero" and rng.random() < 0.35:
+            q[rng.randrange(npin)] = 0.0          # an unpowered pin among powered ones (dummy pin, zero cell of a user power shape)
+            ctx.count("power_vectors_with_an_unpowered_pin")
         Tc = np.array([rng.uniform(600, 850) for _ in range(npin)])
         h = np.array([10 ** rng.uniform(4, 5.5)] * npin)
         ctx.evals += 1
